@@ -46,6 +46,8 @@ type balOp struct {
 	Until   int64    `json:"until,omitempty"`
 	Epoch   int64    `json:"epoch,omitempty"`
 	FromNull bool    `json:"from_null,omitempty"` // pass Null (not an empty byte string) as `from`
+	Data     []byte  `json:"data,omitempty"`     // the `data` argument of the public transfer (with HasData; otherwise Null)
+	HasData  bool    `json:"has_data,omitempty"`
 	ToNull   bool    `json:"to_null,omitempty"`   // pass Null as `to` (only in calls that lack the Alphabet witness)
 	Scopes  []int    `json:"scopes,omitempty"` // per signer: 0 Global (default), 1 None (fee-only), 2 CalledByEntry; the first signer is the sender
 	Signers []int    `json:"signers"` // indices into users; -1 = Alphabet account, -2 = committee-majority account, -3 = one committee member
@@ -250,17 +252,9 @@ func (b *balEnv) exec(op balOp) balObs {
 	var r Result
 	switch op.Kind {
 	case "transfer":
-		if op.FromNull {
-			r = b.invoke(op, b.balance, "transfer", nil, op.To, op.Amount, nil)
-		} else {
-			r = b.invoke(op, b.balance, "transfer", op.From, op.To, op.Amount, nil)
-		}
+		r = b.invoke(op, b.balance, "transfer", nullable(op.From, op.FromNull), op.To, op.Amount, nullable(op.Data, !op.HasData))
 	case "callerTransfer":
-		if op.FromNull {
-			r = b.invoke(op, b.caller, "call", b.balance, "transfer", []any{nil, op.To, op.Amount, nil})
-		} else {
-			r = b.invoke(op, b.caller, "call", b.balance, "transfer", []any{op.From, op.To, op.Amount, nil})
-		}
+		r = b.invoke(op, b.caller, "call", b.balance, "transfer", []any{nullable(op.From, op.FromNull), op.To, op.Amount, nullable(op.Data, !op.HasData)})
 	case "transferX":
 		r = b.invoke(op, b.balance, "transferX", nullable(op.From, op.FromNull), nullable(op.To, op.ToNull), op.Amount, op.Details)
 	case "mint":
@@ -585,10 +579,27 @@ func (g *balGen) next0(step int) balOp {
 				sg, sc = []int{f}, []int{2} // a valid witness for a direct call from the entry script
 			}
 		}
+		op := balOp{Kind: "transfer", From: g.addr(f), To: g.addr(t), Amount: am, Signers: sg, Scopes: sc}
 		if f == balIdxCall || r.Intn(10) == 0 {
-			return balOp{Kind: "callerTransfer", From: g.addr(f), To: g.addr(t), Amount: am, Signers: sg, Scopes: sc}
+			op.Kind = "callerTransfer"
 		}
-		return balOp{Kind: "transfer", From: g.addr(f), To: g.addr(t), Amount: am, Signers: sg, Scopes: sc}
+		if r.Intn(5) == 0 {
+			// the public transfer's data argument is opaque: any value, same outcome
+			op.HasData = true
+			op.Data = [][]byte{{}, {1}, []byte("details"), g.addr(r.Intn(balNUsers))}[r.Intn(4)]
+		}
+		if f < balNUsers && r.Intn(12) == 0 {
+			// a sender that merely CONTAINS a witnessed holder's hash (wallet address format, public key, padded) is no 20-byte account
+			h := g.addr(f)
+			op.From = [][]byte{
+				append(append([]byte{0x35}, h...), 1, 2, 3, 4),
+				append(append([]byte{}, h...), 0),
+				append([]byte{0}, h...),
+				append(append([]byte{0x35}, h...), 0, 0, 0, 0, 0),
+			}[r.Intn(4)]
+			op.Signers, op.Scopes = []int{f}, nil
+		}
+		return op
 	case w < 55:
 		f := g.funded()
 		t := r.Intn(balIdxEmpty)
@@ -822,6 +833,20 @@ func balCorpus(b *balEnv) [][]balOp {
 			{Kind: "newEpochNetmap", Epoch: 9, Signers: []int{-5}},
 			{Kind: "transfer", From: A, To: B, Amount: n(10), Signers: []int{-5}},
 			{Kind: "burn", From: A, Amount: n(1), Details: []byte{6}, Signers: al},
+		},
+		{ // senders that merely contain a witnessed holder's hash, and the opaque data argument
+			{Kind: "mint", To: A, Amount: n(100), Details: []byte{1}, Signers: al},
+			{Kind: "transfer", From: append(append([]byte{0x35}, A...), 9, 9, 9, 9), To: B, Amount: n(30), Signers: []int{0}},
+			{Kind: "transfer", From: append(append([]byte{}, A...), 0), To: B, Amount: n(30), Signers: []int{0}},
+			{Kind: "transfer", From: append([]byte{0}, A...), To: B, Amount: n(30), Signers: []int{0}},
+			{Kind: "callerTransfer", From: append(append([]byte{0x35}, A...), 9, 9, 9, 9), To: B, Amount: n(30), Signers: []int{0}},
+			{Kind: "transfer", From: A, To: append(append([]byte{0x35}, B...), 9, 9, 9, 9), Amount: n(30), Signers: []int{0}},
+			{Kind: "transfer", From: A, To: B, Amount: n(10), Signers: []int{1}, HasData: true, Data: []byte{}},
+			{Kind: "transfer", From: A, To: B, Amount: n(10), Signers: []int{1}, HasData: true, Data: []byte("x")},
+			{Kind: "transfer", From: A, To: B, Amount: n(10), Signers: []int{1, 2}, HasData: true, Data: A},
+			{Kind: "callerTransfer", From: A, To: B, Amount: n(10), Signers: []int{1}, HasData: true, Data: []byte{7}},
+			{Kind: "transfer", From: A, To: B, Amount: n(10), Signers: []int{0}, HasData: true, Data: []byte("x")},
+			{Kind: "transfer", From: A, To: B, Amount: n(-3), Signers: []int{1}, HasData: true, Data: []byte("x")},
 		},
 		{ // the all-zero script hash is an account like any other 20-byte address
 			{Kind: "mint", To: A, Amount: n(1000), Details: []byte{1}, Signers: al},
@@ -1195,7 +1220,7 @@ func runBalanceFamily(t *testing.T, prop string) {
 				if ncomm != 1 && balCorpusExtra(ci) > 0 {
 					continue // the many-locks histories do not depend on the committee
 				}
-				if ncomm == 6 && ci != nc-3 && ci != nc-1 {
+				if ncomm == 6 && ci != nc-4 && ci != nc-1 {
 					continue // 6 committee keys with 4 consensus nodes: the gate histories only
 				}
 				ci := ci
